@@ -102,7 +102,8 @@ def elem_type_ok(tabtype, v):
 def scalar_type_ok(base, v):
     k = v[0]
     if k == "N":
-        return v[1] == base
+        # a null tuple carries no declaration (it prints as tuple{?}): it fits any tuple type
+        return v[1] == base or (base.startswith("tuple") and v[1] == "tuple{?}")
     if base.startswith("tuple"):
         if k != "R" or v[1] != base or v[3] is not None:
             return False
